@@ -19,7 +19,7 @@ ID = "C15"
 D5 = [(0, 1), (1, 1), (0, None), (1, None), (2, 2)]
 _ROOT = os.path.dirname(os.path.dirname(os.path.abspath(__file__)))
 
-CFG = {"shape": None, "version": "1.0", "mask": None}
+CFG = {"shape": None, "version": "1.0", "mask": None, "gref": None}
 STATE = {}
 _KNOWN = None
 
@@ -40,6 +40,8 @@ def known_vectors(version, sid):
 
 def configure(cfg):
     CFG.update(cfg)
+    if CFG.get("gref"):
+        return _configure_gref(*CFG["gref"])
     if CFG["shape"] is None:
         return
     shape = _detuple(CFG["shape"])
@@ -47,6 +49,34 @@ def configure(cfg):
     mask = CFG.get("mask") or list(range(len(parts)))
     STATE.update(shape=shape, group=group, parts=parts, n=len(parts), sid=S.shape_id(shape), mask=mask,
                  known=known_vectors(CFG["version"], S.shape_id(shape)))
+
+
+def _configure_gref(outer, body):
+    """(g, g) or (g | g) where g is ONE named group referenced twice: the leaves of g are the same declaration objects on
+    both paths.  Symbolic: the occurrence classes of the enclosing group and of the two references; the oracle sees the
+    expanded model."""
+    P = S.S(S.E('c'))
+    tag = {'s': 'sequence', 'c': 'choice'}[outer]
+    new = '<xs:%s><xs:group ref="g"/><xs:group ref="g"/></xs:%s>' % (tag, tag)
+    gdef = '<xs:group name="g"><xs:sequence>%s</xs:sequence></xs:group>' % ''.join('<xs:element ref="%s"/>' % n for n in body)
+    text = S.schema_text(P).replace(S.to_xsd(P), new).replace('<xs:element name="r">', gdef + '<xs:element name="r">')
+    cls = xmlschema.XMLSchema10 if CFG["version"] == "1.0" else xmlschema.XMLSchema11
+    sch = cls(text, validation='lax')
+    sch.maps.cache.enabled = False
+    group = sch.elements['r'].type.content
+    r1, r2 = list(group)
+    assert r1 is not r2 and list(r1)[0] is list(r2)[0]
+    shape = (outer, [S.S(*[S.E(n) for n in body]), S.S(*[S.E(n) for n in body])], 1, 1)
+    STATE.update(shape=shape, group=group, parts=[group, r1, r2], n=3, sid="gref:" + S.shape_id(shape), mask=[0, 1, 2],
+                 known=set(), gref_leaves=len(body), schema=sch)
+
+
+def _ovec(vec):
+    """occurrence vector of the oracle's (expanded) shape"""
+    k = STATE.get("gref_leaves")
+    if not k:
+        return vec
+    return [vec[0], vec[1]] + [(1, 1)] * k + [vec[2]] + [(1, 1)] * k
 
 
 def _detuple(x):
@@ -93,9 +123,9 @@ def _oracle(vec):
     try:
         from crosshair.tracers import NoTracing
     except ImportError:
-        return cm.deterministic(S.to_oracle(S.with_occurs(STATE["shape"], vec)), CFG["version"], S.SUBST)
+        return cm.deterministic(S.to_oracle(S.with_occurs(STATE["shape"], _ovec(vec))), CFG["version"], S.SUBST)
     with NoTracing():       # oracle on already-concrete data
-        return cm.deterministic(S.to_oracle(S.with_occurs(STATE["shape"], vec)), CFG["version"], S.SUBST)
+        return cm.deterministic(S.to_oracle(S.with_occurs(STATE["shape"], _ovec(vec))), CFG["version"], S.SUBST)
 
 
 def h_check(**kw) -> bool:
@@ -132,7 +162,8 @@ def explain(fn, args):
     vec = [D5[i] for i in idx]
     got, want = _verdicts(idx)
     return "XSD %s model %s : check_model %s, oracle says %s" % (
-        CFG["version"], cm.render(S.to_oracle(S.with_occurs(STATE["shape"], vec))),
+        CFG["version"], ("[one named group referenced twice] " if STATE.get("gref_leaves") else "") +
+        cm.render(S.to_oracle(S.with_occurs(STATE["shape"], _ovec(vec)))),
         "accepts" if got else "rejects", "deterministic" if want else "NOT deterministic")
 
 
@@ -155,7 +186,8 @@ META = {
                  "D5 = {?,1,*,+,{2,2}} for all particles, XSD 1.0 and 1.1",
         "thorough": "all catalogue shapes with <= 4 particles and a seeded selection of 5-particle shapes",
     },
-    "outside": "occurrence bounds other than the five classes, models deeper than 2 or with more than 5 particles, 'all' groups, "
+    "outside": "occurrence bounds other than the five classes, models deeper than 2 or with more than 5 particles, 'all' groups, named "
+               "groups referenced more than twice or below the top level (gref/* covers two references in one group), "
                "openContent; the through-the-constructor variant is exercised on the known-finding witnesses only",
     "stubs": [],
     "assumptions": [
@@ -271,6 +303,16 @@ def obligations(tier, seed):
         out.append({"name": "strict-build/%s" % v, "fn": "h_strict_build", "pre": "pre_build", "args": [["m", "int"], ["k", "int"]],
                     "config": {"shape": None, "version": v, "mask": None}, "timeout": 300, "twin_timeout": 30,
                     "bound": "%d content models x derivation kinds %r, schema constructed in strict mode (finite choice; construction outside the tracer)" % (len(B_MODELS), B_KINDS)})
+    for v in ("1.0", "1.1"):
+        for outer in "sc":
+            for body in ("a", "ab"):
+                out.append({
+                    "name": "gref/%s/%s/%s" % (v, outer, body),
+                    "fn": "h_check", "pre": "pre_vec", "args": [["i%d" % k, "int"] for k in range(3)],
+                    "config": {"shape": None, "version": v, "mask": None, "gref": [outer, body]}, "timeout": to, "twin_timeout": 30,
+                    "bound": "one named group g = (%s) referenced twice in a %s; occurrence classes of the enclosing group and of both "
+                             "references symbolic (125 vectors), leaves (1,1)" % (", ".join(body), {"s": "sequence", "c": "choice"}[outer]),
+                })
     for s, v in dplan:
         mask = deep_mask(s)
         out.append({
